@@ -445,8 +445,17 @@ fn fit_binary<C: Lab>(obs: &mut Obs, tag: &'static str, x: &[Vec<f64>], labels: 
     let Some(res) = obs.call("binary:fit", || build(first_iters).fit(&ds)) else { return Outcome { verdict: None, lse_defect: false } };
     let model = match res {
         Ok(m) => m,
-        Err(_) => {
+        // the optimiser may give up (line search failure, non-finite cost): counted, not judged. Every other
+        // error refuses a configuration the generator only draws from the documented ranges
+        Err(linfa_logistic::error::Error::ArgMinError(_)) => {
             obs.class("binary_fit_err");
+            return Outcome { verdict: None, lse_defect: false };
+        }
+        Err(e) => {
+            obs.fail(
+                "binary:fit-refuses-valid-configuration",
+                format!("[{tag}] fit returned the error '{e}' for alpha = {}, gradient tolerance {:e}, intercept {}, finite data with two classes", cfg.alpha, cfg.tol, cfg.intercept),
+            );
             return Outcome { verdict: None, lse_defect: false };
         }
     };
@@ -615,8 +624,15 @@ fn fit_multi<C: Lab>(obs: &mut Obs, tag: &'static str, x: &[Vec<f64>], labels: &
     let Some(res) = obs.call("multi:fit", || build(first_iters).fit(&ds)) else { return Outcome { verdict: None, lse_defect: false } };
     let model = match res {
         Ok(m) => m,
-        Err(_) => {
+        Err(linfa_logistic::error::Error::ArgMinError(_)) => {
             obs.class("multi_fit_err");
+            return Outcome { verdict: None, lse_defect: false };
+        }
+        Err(e) => {
+            obs.fail(
+                "multi:fit-refuses-valid-configuration",
+                format!("[{tag}] fit returned the error '{e}' for alpha = {}, gradient tolerance {:e}, intercept {}, finite data with {k} classes", cfg.alpha, cfg.tol, cfg.intercept),
+            );
             return Outcome { verdict: None, lse_defect: false };
         }
     };
